@@ -8,7 +8,7 @@ theorem interp_refRunCore (p : Program) (ff0 : Bool) (h : p.skipDeco = none) :
   show ((interp p refRunCore { rs := initRS p ff0 }).rs, (interp p refRunCore { rs := initRS p ff0 }).succ) = runCore p ff0 ∧ _
   rcases h1 : runStage p.setUp false (initRS p ff0) with ⟨s1, ok1⟩
   cases ok1
-  · simp [refRunCore, interp, runCallee, h, h1, runCore]
+  · cases hf : (runCleanups s1).ff <;> simp [refRunCore, interp, runCallee, h, h1, hf, runCore]
   · rcases h2 : runStage p.body p.xfailDeco s1 with ⟨s2, ok2⟩
     rcases h3 : runStage p.tearDown false s2 with ⟨s3, ok3⟩
     cases ok2 <;> cases ok3 <;> cases hf : (runCleanups s3).ff <;>
